@@ -164,11 +164,17 @@ impl<'ast, 'decls> ResolveIterator<'ast, 'decls>
                                 span,
                                 &util::BigInt::from(cur_bank_data.cur_position))?;
     
-                        cur_bank_data.cur_position += bits_until_alignment(
+                        let alignment_bits = bits_until_alignment(
                             report,
                             span,
                             cur_address_in_bits,
                             label_align)?;
+
+                        cur_bank_data.cur_position = advance_position(
+                            report,
+                            span,
+                            cur_bank_data.cur_position,
+                            alignment_bits)?;
                     }
                 }
 
@@ -336,13 +342,11 @@ impl<'ast, 'decls> ResolveIterator<'ast, 'decls>
                 let cur_bank_data = &mut self.bank_data[self.bank_ref.0];
 
                 // Advance the current bank's position
-                cur_bank_data.cur_position += {
-                    match instr.encoding.size
-                    {
-                        Some(size) => size,
-                        None => 0,
-                    }
-                };
+                cur_bank_data.cur_position = advance_position(
+                    report,
+                    ast_instr.span,
+                    cur_bank_data.cur_position,
+                    instr.encoding.size.unwrap_or(0))?;
             }
 
             asm::AstAny::DirectiveData(ast_data) =>
@@ -353,13 +357,11 @@ impl<'ast, 'decls> ResolveIterator<'ast, 'decls>
                 let cur_bank_data = &mut self.bank_data[self.bank_ref.0];
 
                 // Advance the current bank's position
-                cur_bank_data.cur_position += {
-                    match data_elem.encoding.size
-                    {
-                        Some(size) => size,
-                        None => 0,
-                    }
-                };
+                cur_bank_data.cur_position = advance_position(
+                    report,
+                    ast_data.header_span,
+                    cur_bank_data.cur_position,
+                    data_elem.encoding.size.unwrap_or(0))?;
             }
 
             asm::AstAny::DirectiveRes(ast_res) =>
@@ -370,7 +372,11 @@ impl<'ast, 'decls> ResolveIterator<'ast, 'decls>
                 let cur_bank_data = &mut self.bank_data[self.bank_ref.0];
 
                 // Advance the current bank's position
-                cur_bank_data.cur_position += res.reserve_size;
+                cur_bank_data.cur_position = advance_position(
+                    report,
+                    ast_res.header_span,
+                    cur_bank_data.cur_position,
+                    res.reserve_size)?;
             }
 
             asm::AstAny::DirectiveAlign(ast_align) =>
@@ -392,11 +398,17 @@ impl<'ast, 'decls> ResolveIterator<'ast, 'decls>
                         span,
                         &util::BigInt::from(cur_bank_data.cur_position))?;
 
-                cur_bank_data.cur_position += bits_until_alignment(
+                let alignment_bits = bits_until_alignment(
                     report,
                     span,
                     cur_address_in_bits,
                     align.align_size)?;
+
+                cur_bank_data.cur_position = advance_position(
+                    report,
+                    span,
+                    cur_bank_data.cur_position,
+                    alignment_bits)?;
             }
 
             asm::AstAny::DirectiveAddr(ast_addr) =>
@@ -410,13 +422,16 @@ impl<'ast, 'decls> ResolveIterator<'ast, 'decls>
                 let new_position = {
                     if addr.address >= bank.addr_start
                     {
-                        &addr.address.checked_sub(
+                        addr.address.checked_sub(
                                 report,
                                 ast_addr.header_span,
                                 &bank.addr_start)?
                             .maybe_into::<usize>()
                             .unwrap_or(0)
-                            * bank.addr_unit
+                            .checked_mul(bank.addr_unit)
+                            .ok_or_else(|| report.error_span(
+                                "position is out of supported range",
+                                ast_addr.header_span))?
                     }
                     else
                     {
@@ -431,6 +446,30 @@ impl<'ast, 'decls> ResolveIterator<'ast, 'decls>
         }
 
         Ok(())
+    }
+}
+
+
+/// Advances a bank position, reporting an error instead of
+/// overflowing the machine word.
+fn advance_position(
+    report: &mut diagn::Report,
+    span: diagn::Span,
+    position: usize,
+    amount: usize)
+    -> Result<usize, ()>
+{
+    match position.checked_add(amount)
+    {
+        Some(new_position) => Ok(new_position),
+        None =>
+        {
+            report.error_span(
+                "position is out of supported range",
+                span);
+
+            Err(())
+        }
     }
 }
 
